@@ -6,6 +6,56 @@ HOOK_COMMITS = subprocess.run(["git", "-C", "/repo", "log", "--format=%H", "--gr
 
 # id -> (level, technique, text, note, design_ref)
 CHECKS = {
+ "C02": ("exploration",
+         "deterministic simulation: seeded request programs with protocol-level faults (lost responses, duplicated and re-sent ranges, status queries, server restart between chunks), simulated wall clock, refinement against an object model with full-state read-back",
+         "Uploads by all three protocols under the perturbations a real client and network produce are followed by downloads through the three URL forms; every response and, at a drawn frequency and after restarts, the full state (listing, metadata, media of every object) are compared with the object model on both stores.",
+         "Trusted: the object model (gcsmodel.go), the resumable client (gcsresum.go), the HTTP stub (real parser and mux, recorder instead of a connection).",
+         "DESIGN.md 6/C02"),
+ "C04": ("exploration",
+         "deterministic simulation: the finite precondition truth table visited by seeded permutation (consumed completely by the quick tier) and revisited inside random histories incl. an interleaved second request during a resumable upload; refinement with full-state diff after every failing request",
+         "All 13440 combinations of the four condition parameters x object state x operation x store are executed and compared with the truth table of the statement; every non-2xx answer is followed by a read-back of every object, which must be unchanged.",
+         "Trusted: evalConds (the truth table written from the statement), the object model. This property depends on no schedule; the simulator contributes enumeration, the clock and the interleaved-request case.",
+         "DESIGN.md 6/C04"),
+ "C07": ("exploration",
+         "deterministic simulation: seeded baton-passing scheduler over every store access, lock-map step and file-store write step, context-cancel faults, linearizability of the recorded history per object (porcupine) with generations as opaque fresh tokens",
+         "2-4 simulated HTTP clients race uploads, patches, deletes, composes, copies and reads on 1-2 objects; every response must be explained by one serial order per object, N writers conditioned on one generation have exactly one winner, and the lock map is empty afterwards.",
+         "Trusted: the Store pass-through and lock-map hooks, porcupine v1.3.0, the object model. Listings are outside this workload.",
+         "DESIGN.md 6/C07"),
+ "C08": ("fault_enumeration",
+         "deterministic simulation with crash injection: process-kill images at seeded scheduling points (request boundaries, engine calls, goleveldb file operations incl. torn writes, each system call of metadata persistence and clear/create, during recovery), repeated cycles, recovered state checked against the set of admissible states",
+         "The disk engine is killed at a drawn (thorough tier: every one of the first 192) scheduling point of admin+data programs, restarted on the image through the real start-up path, and must serve the acknowledged state with each in-flight request wholly applied or absent; up to 3 cycles, also clean stops and kills during recovery.",
+         "Trusted: process-kill semantics (completed system calls survive; no page-cache loss is claimed), the consistent-image lock around goleveldb file operations, the registry model. Two recorded findings (non-atomic prefix / family drops) are listed in known_findings.json.",
+         "DESIGN.md 6/C08"),
+ "C09": ("fault_enumeration",
+         "deterministic simulation: restart (kill between requests) after EVERY request of seeded programs on the file store with full-state comparison, planted sidecar-less files, and a differential run of one pre-drawn tape against memory and file stores",
+         "Every request boundary of every generated program is a restart point; after each restart everything is read back through HTTP and compared with what was acknowledged. The same tapes run against both stores must give identical normalised response traces.",
+         "Trusted: the object model and the normalisation (generation -> rank of first appearance, timestamps dropped). Kills inside a request are outside the property's wording.",
+         "DESIGN.md 6/C09"),
+ "C10": ("exploration",
+         "deterministic simulation: seeded histories under a simulated wall clock (strictly increasing baseline; stalled and backward-stepping fault configurations counted separately), history-wide versioning laws",
+         "Generation freshness/order, metageneration reset and +1, patch merge semantics and agreement of the four reporting places are checked over long back-to-back histories on both stores with restarts; clock-fault configurations expose that generations are wall-clock readings (two recorded findings).",
+         "Trusted: the object model; generations are treated as opaque ordered tokens.",
+         "DESIGN.md 6/C10"),
+ "C11": ("exploration",
+         "deterministic simulation used as an enumerator: small name universes x prefixes x delimiters x page sizes x store visited by seeded permutation (consumed completely by the quick tier), random larger sets, whole token chains compared with a listing model",
+         "Every page chain is followed to the end and compared with the listing model (completeness, no duplicates, bytewise order, collapsed prefixes once, page bound, items equal to metadata GETs), plus 404/400 cases.",
+         "Trusted: listModel (c11.go). Apart from the store configuration this is a pure function of (names, parameters).",
+         "DESIGN.md 6/C11"),
+ "C15": ("exploration",
+         "deterministic simulation: seeded compose/copy programs after drawn histories, both stores with restarts, refinement against the object model with full-state read-back",
+         "Compose with 1..33 sources (repeats, destination among sources, missing sources, per-source generations) and copies within/across buckets to awkward destination names are compared with the object model, sources included.",
+         "Trusted: the object model.",
+         "DESIGN.md 6/C15"),
+ "C16": ("exploration",
+         "deterministic simulation: GC policy against a GC model at exact cut-off boundaries (simulated server clock), a GC pass as a scheduled task racing add-only writers (seeded schedules), and the quiescence rule under a simulated wall clock",
+         "Exact condemnation per rule tree at now-age +-1 us; no acknowledged write is lost or reverted by a concurrently running pass (GC(M) <= final <= M per row); a non-forced pass shortly after activity collects nothing; no deadlock/livelock.",
+         "Trusted: the GC model, cooperative mutexes, the stubbed gcloop timer (the pass is real code).",
+         "DESIGN.md 6/C16"),
+ "C18": ("exploration",
+         "deterministic simulation: seeded schedules of one multi-message scan against 1-3 writers (one writer per row), window oracle over the recorded per-row state sequences",
+         "Ascending keys without duplicates, every returned row a state that row had inside the scan window, unwritten rows exact, final status OK; leveldb engines (memory and disk).",
+         "Trusted: the stream seam (Send yields with the table lock released), cooperative mutexes.",
+         "DESIGN.md 6/C18"),
  "C01": ("exploration",
          "deterministic simulation: seeded sequential programs over an adversarial universe, simulated server clock, restart/kill-image faults for the disk engine, refinement against a reference data model after every request",
          "Every response and the visible state after every request are compared with an executable model of the Bigtable data model, on all three engines, under a drawn clock trajectory and (disk) clean restarts and process-kill images between requests.",
